@@ -332,6 +332,13 @@ def corpus(tier):
         reqs=[{'id': 0, 'form': 'execute', 'src': 'bob', 'kind': 'shares', 'arg': None, 'timeout': 2.0, 'at': 0.0}],
         msgs=[{'arrive': 0.3, 'src': 'carol', 'kind': 'shares', 'arg': None, 'val': 1},
               {'arrive': 0.6, 'src': 'bob', 'kind': 'shares', 'arg': None, 'val': 2}]))
+    # 8. the request's own send is suspended (server not reading, write buffer full) while the answer arrives
+    for kind, arg in (('status', 'u1'), ('stats', 'u1'), ('join', 'r1'), ('address', 'u1')):
+        for reply_at in (0.8, 1.2):
+            out.append(dict(
+                base, send_stall={'from': 0.3, 'until': 1.5},
+                reqs=[{'id': 0, 'form': 'execute', 'src': 'server', 'kind': kind, 'arg': arg, 'timeout': 6.0, 'at': 0.5}],
+                msgs=[{'arrive': reply_at, 'src': 'server', 'kind': kind, 'arg': arg, 'val': 3}]))
     # 7. directory contents: wrong ticket first, right ticket second
     out.append(dict(
         base,
@@ -547,6 +554,22 @@ def _run(world: World, plan):
                 if link is not None:
                     link.send(obj)
 
+    async def send_stall():
+        """The server stops reading for a while and the client's write buffer is filled: every send on the server link
+        issued in that window is suspended in drain() until the server reads again."""
+        st = plan.get('send_stall')
+        if not st:
+            return
+        await _sleep_until(t0[0] + st['from'])
+        sess = [x for x in server.sessions if not x.closed][-1]
+        world.net.fired['server_reader_stalled'] += 1
+        sess.writer.transport.pause_reading()
+        for i in range(4):
+            world.call(alice, f'filler-{i}', network.send_server_messages,
+                       M.PrivateChatMessage.Request('nobody', 'x' * 60000))
+        await _sleep_until(t0[0] + st['until'])
+        sess.writer.transport.resume_reading()
+
     async def timed_cancels():
         for c in sorted([c for c in cancels if c.get('at') is not None], key=lambda c: c['at']):
             await _sleep_until(t0[0] + c['at'])
@@ -563,6 +586,7 @@ def _run(world: World, plan):
         tasks = [asyncio.ensure_future(issue(r)) for r in reqs]
         tasks.append(asyncio.ensure_future(send_msgs()))
         tasks.append(asyncio.ensure_future(timed_cancels()))
+        tasks.append(asyncio.ensure_future(send_stall()))
         await asyncio.gather(*tasks)
         horizon = t0[0] + 14.0
         while loop.time() < horizon and any(not c.done for c in calls.values()):
@@ -632,8 +656,16 @@ def _run(world: World, plan):
             t_ret = call.returned_at
             at_ret = [d for d in deliveries if abs(d['t'] - t_ret) <= EPS]
             ok = False
+            st = plan.get('send_stall')
+            stalled = bool(st) and req['src'] == 'server' and req['form'] == 'execute' and \
+                st['from'] < req['at'] < st['until']
             for a in acceptable:
-                if abs(a['t'] - t_ret) <= EPS and (got is None or got == message_val(a['kind'], build_message(a['kind'], a['arg'], a['val'], 1))):
+                same_instant = abs(a['t'] - t_ret) <= EPS
+                if stalled and a['t'] <= t_ret <= base + st['until'] + 1.0:
+                    # the reply came while the request's own send was still suspended: the call returns once the send is done
+                    same_instant = True
+                    world.probe('reply_during_suspended_send')
+                if same_instant and (got is None or got == message_val(a['kind'], build_message(a['kind'], a['arg'], a['val'], 1))):
                     ok = True
                     break
             if not ok:
